@@ -130,6 +130,7 @@ PLANS["C01"] = {
                                spread(seed, "C01i", N(tier, 30, 600), COMBO_LOGICS, "answers", mode="interface") +
                                spread(seed, "C01d", N(tier, 20, 400), ["QF_IDL", "QF_RDL", "QF_IDL", "QF_RDL", "QF_UFIDL"], "answers", mode="cnf", nnum=5, maxconst=2, n_atoms=10) +
                                spread(seed, "C01e", N(tier, 30, 600), ["QF_UF"], "answers", mode="diamond") +
+                               spread(seed, "C01u", N(tier, 30, 600), ["QF_LRA", "QF_LRA", "QF_LIA"], "answers", mode="guarded", nnum=6) +
                                spread(seed, "C01g", N(tier, 40, 800), ["QF_IDL", "QF_RDL", "QF_IDL", "QF_RDL", "QF_UFIDL"], "answers", mode="dlgraph", nnum=5) +
                                spread(seed, "C01b", N(tier, 26, 600), ALL_LOGICS, "answers", more_cfgs=["la", "ghost"]),
     "rule": "random incremental scripts over all supported logic families; the kernel (TLC) evaluates candidate models "
@@ -332,7 +333,8 @@ PLANS["C11"] = {
     "jobs": lambda seed, tier: engine_jobs(seed, "C11", N(tier, 150, 3000), THEORY_LOGICS,
                                            [["c0"], ["c0", "la"], ["ghost"], ["picky"], ["proofs"], ["seed"]], need="tcl") +
                                engine_jobs(seed, "C11d", N(tier, 60, 1200), ["QF_IDL", "QF_RDL", "QF_IDL", "QF_RDL", "QF_LRA", "QF_UF"],
-                                           [["c0"], ["proofs"], ["cores"]], need="tcl", modes=["cnf", "dlgraph", "dlgraph"], nnum=5, maxconst=2, n_atoms=12, ratio=2.2),
+                                           [["c0"], ["proofs"], ["cores"]], need="tcl", modes=["cnf", "dlgraph", "dlgraph"], nnum=5, maxconst=2, n_atoms=12, ratio=2.2) +
+                               engine_jobs(seed, "C11g", N(tier, 40, 800), ["QF_LRA", "QF_LRA", "QF_LIA"], [["c0"], ["proofs"]], need="tcl", modes=["guarded"], nnum=6, timeout=10),
     "rule": "every theory clause (conflict, explanation of a propagation, split, root-level deduction) of runs over the theory "
             "logics and engines; the kernel evaluates candidate models of the negated clause; non-trivial = the run produced a theory clause",
 }
@@ -360,7 +362,8 @@ PLANS["C13"] = {
 PLANS["C26"] = {
     "module": "Engine_Trace",
     "jobs": lambda seed, tier: engine_jobs(seed, "C26", N(tier, 150, 3000), ARITH_LOGICS,
-                                           [["c0"], ["itp"], ["la"], ["seed"]], need="farkas", n_atoms=6),
+                                           [["c0"], ["itp"], ["la"], ["seed"]], need="farkas", n_atoms=6) +
+                               engine_jobs(seed, "C26g", N(tier, 40, 800), ["QF_LRA", "QF_LRA", "QF_LIA"], [["c0"], ["itp"]], need="farkas", modes=["guarded"], nnum=6, timeout=10),
     "rule": "every conflict of the LA solver with its coefficients; non-trivial = at least one Farkas certificate was checked",
 }
 
@@ -374,7 +377,8 @@ def driver_build(flavours=("rel",)):
     return True
 PLANS["C14"] = {
     "module": "Terms_Trace", "pre": lambda: driver_build(),
-    "jobs": lambda seed, tier: spread(seed, "C14", N(tier, 60, 1200), ["ALL"], "terms", size=N(tier, 70, 90)) +
+    "jobs": lambda seed, tier: spread(seed, "C14", N(tier, 45, 900), ["ALL"], "terms", size=N(tier, 70, 90)) +
+                               spread(seed, "C14b", N(tier, 20, 400), ["ALL"], "terms", size=N(tier, 70, 90), big=True) +
                                spread(seed, "C14d", N(tier, 8, 160), ["ALL"], "terms", size=N(tier, 50, 70), burst="distinct"),
     "mc": [{"module": "MC_TermStore"}],
     "per_batch": 4,
